@@ -494,7 +494,8 @@ structure DqTok (T : TokCfg) : Prop where
   right : T.right.length ≤ 1
 
 /-- a writer whose output is lexed as one token and decoded back to the argument -/
-def GoodWriter (w : Str → Str) (x : Str) : Prop := Safe (w x) ∧ decodeQuoted (w x) = .ok (toCps x)
+def GoodWriter (w : Str → Str) (val : Str → List Nat) (x : Str) : Prop :=
+  Safe (w x) ∧ decodeQuoted (w x) = .ok (val x)
 
 theorem dq_ne_short (w : Str → Str) (x : Str) (t : Str) (h : t.length ≤ 1) : dq w x ≠ t := by
   intro e
@@ -502,10 +503,11 @@ theorem dq_ne_short (w : Str → Str) (x : Str) (t : Str) (h : t.length ≤ 1) :
   simp [dq] at this
   omega
 
-theorem topLoop_step_dq {T : TokCfg} (hT : DqTok T) (w : Str → Str) (x : Str) (hx : GoodWriter w x)
+theorem topLoop_step_dq {T : TokCfg} (hT : DqTok T) (w : Str → Str) (val : Str → List Nat) (x : Str)
+    (hx : GoodWriter w val x)
     (n : Nat) (rest : Str) (args : List Tree) (ends : List (List Tree)) :
     topLoop T (n + 1) (bnd (dq w x ++ rest)) args ends =
-      topLoop T n (bnd rest) (args ++ [.leaf (toCps x)]) ends := by
+      topLoop T n (bnd rest) (args ++ [.leaf (val x)]) ends := by
   have hg : getToken T.lexCfg (bnd (dq w x ++ rest)) = .tok (dq w x) (bnd rest) := by
     have := getToken_quoted hT.lex (w x) rest hx.1
     simpa [dq] using this
@@ -513,14 +515,14 @@ theorem topLoop_step_dq {T : TokCfg} (hT : DqTok T) (w : Str → Str) (x : Str) 
   have h1 : ¬ (dq w x = ['|'] ∧ T.pipe = true) := fun h => dq_ne_short w x ['|'] (by simp) h.1
   have h2 : dq w x ≠ T.left := dq_ne_short w x _ hT.left
   have h3 : dq w x ≠ T.right := dq_ne_short w x _ hT.right
-  have h4 : handleToken T.quotes (dq w x) = .ok (toCps x) := by
+  have h4 : handleToken T.quotes (dq w x) = .ok (val x) := by
     rw [dq, handleToken_quoted _ hT.q, hx.2]
   rw [topLoop, hg]
   simp only [h0, h1, h2, h3, h4, if_false, PR.bind]
 
-theorem topLoop_spaced {T : TokCfg} (hT : DqTok T) (w : Str → Str) (xs : List Str)
-    (hx : ∀ x ∈ xs, GoodWriter w x) (n : Nat) (hn : xs.length + 1 ≤ n) (args : List Tree) :
-    topLoop T n (bnd (spaced w xs)) args [] = .ok (args ++ xs.map fun x => .leaf (toCps x), []) := by
+theorem topLoop_spaced {T : TokCfg} (hT : DqTok T) (w : Str → Str) (val : Str → List Nat) (xs : List Str)
+    (hx : ∀ x ∈ xs, GoodWriter w val x) (n : Nat) (hn : xs.length + 1 ≤ n) (args : List Tree) :
+    topLoop T n (bnd (spaced w xs)) args [] = .ok (args ++ xs.map fun x => .leaf (val x), []) := by
   induction xs generalizing n args with
   | nil =>
     obtain ⟨m, rfl⟩ : ∃ m, n = m + 1 := ⟨n - 1, by simp at hn; omega⟩
@@ -528,13 +530,13 @@ theorem topLoop_spaced {T : TokCfg} (hT : DqTok T) (w : Str → Str) (xs : List 
   | cons x xs ih =>
     obtain ⟨m, rfl⟩ : ∃ m, n = m + 1 := ⟨n - 1, by simp at hn; omega⟩
     have e : spaced w (x :: xs) = ' ' :: (dq w x ++ spaced w xs) := by simp [spaced]
-    rw [e, topLoop, getToken_space hT.lex, ← topLoop, topLoop_step_dq hT w x (hx x (by simp))]
+    rw [e, topLoop, getToken_space hT.lex, ← topLoop, topLoop_step_dq hT w val x (hx x (by simp))]
     rw [ih (fun y hy => hx y (by simp [hy])) m (by simp at hn; omega)]
     simp
 
-theorem tokenizeT_dq {T : TokCfg} (hT : DqTok T) (w : Str → Str) (xs : List Str)
-    (hx : ∀ x ∈ xs, GoodWriter w x) :
-    tokenizeT T (joinChar ' ' (xs.map (dq w))) = .ok (xs.map fun x => .leaf (toCps x)) := by
+theorem tokenizeT_dq {T : TokCfg} (hT : DqTok T) (w : Str → Str) (val : Str → List Nat) (xs : List Str)
+    (hx : ∀ x ∈ xs, GoodWriter w val x) :
+    tokenizeT T (joinChar ' ' (xs.map (dq w))) = .ok (xs.map fun x => .leaf (val x)) := by
   cases xs with
   | nil => simp [tokenizeT, joinChar, fuelFor, topLoop, initLexer, getToken, readLoop, PR.bind, assemble]
   | cons x xs =>
@@ -545,8 +547,8 @@ theorem tokenizeT_dq {T : TokCfg} (hT : DqTok T) (w : Str → Str) (xs : List St
       | nil => simp
       | cons y ys ih => simp [spaced] at ih ⊢; omega
     rw [show fuelFor (dq w x ++ spaced w xs) = (2 * (dq w x ++ spaced w xs).length + 2) + 1 from rfl,
-      topLoop_step_dq hT w x (hx x (by simp)),
-      topLoop_spaced hT w xs (fun y hy => hx y (by simp [hy])) _ (by simp; omega)]
+      topLoop_step_dq hT w val x (hx x (by simp)),
+      topLoop_spaced hT w val xs (fun y hy => hx y (by simp [hy])) _ (by simp; omega)]
     simp [PR.bind, assemble]
 
 theorem dqTok_of_mk {b quotes : Str} {pipe : Bool} {T : TokCfg}
@@ -563,7 +565,7 @@ theorem dqTok_of_mk {b quotes : Str} {pipe : Bool} {T : TokCfg}
   · rcases hlr with ⟨_, h, _⟩ | ⟨l, r, _, h, _⟩ <;> simp [h]
   · rcases hlr with ⟨_, _, h⟩ | ⟨l, r, _, _, h⟩ <;> simp [h]
 
-theorem goodWriter_quoteBody (x : Str) : GoodWriter quoteBody x :=
+theorem goodWriter_quoteBody (x : Str) : GoodWriter quoteBody toCps x :=
   ⟨safe_quoteBody x, decodeQuoted_quoteBody x⟩
 
 /-! ### rendering and re-reading nested commands -/
@@ -722,7 +724,7 @@ theorem topLoop_sp {T : TokCfg} {l r : Char} (hT : BrTok T l r) (ts : List STree
     cases t with
     | leaf x =>
       rw [show render l r (.leaf x) = dq quoteBody x from rfl,
-        topLoop_step_dq hT.toDqTok quoteBody x (goodWriter_quoteBody x),
+        topLoop_step_dq hT.toDqTok quoteBody toCps x (goodWriter_quoteBody x),
         ih m (by simp [sizeL, STree.size] at hn; omega)]
       simp [toTrees, STree.toTree]
     | node ts' =>
@@ -744,7 +746,7 @@ theorem tokenizeT_render {T : TokCfg} {l r : Char} (hT : BrTok T l r) (ts : List
     cases t with
     | leaf x =>
       rw [show render l r (.leaf x) = dq quoteBody x from rfl,
-        topLoop_step_dq hT.toDqTok quoteBody x (goodWriter_quoteBody x),
+        topLoop_step_dq hT.toDqTok quoteBody toCps x (goodWriter_quoteBody x),
         topLoop_sp hT ts _ (by simp only [sizeL, STree.size] at hlen; omega)]
       simp [PR.bind, assemble, toTrees, STree.toTree]
     | node ts' =>
@@ -816,4 +818,338 @@ theorem topLoop_flat (T : TokCfg) (hl : T.left = []) (hr : T.right = []) (hp : T
           · exact hargs u hu
           · simp at hu; subst hu; trivial
         | _ => simp [hh, PR.bind] at h
+
+/-! ### `dqrepr`: the `unicode_escape` encoder re-read by the decoder -/
+
+/-- characters that need no protection inside double quotes -/
+def Plain (s : Str) : Prop := ∀ ch ∈ s, ch ≠ '\\' ∧ ch ≠ '"'
+
+theorem safe_of_plain {s t : Str} (h : Plain s) (ht : Safe t) : Safe (s ++ t) := by
+  induction s with
+  | nil => exact ht
+  | cons c s ih =>
+    have hc := h c (by simp)
+    exact .plain c _ hc.1 hc.2 (ih fun ch hch => h ch (by simp [hch]))
+
+theorem escapeDq_plain {s : Str} (h : Plain s) : escapeDq s = s := by
+  induction s with
+  | nil => rfl
+  | cons c s ih =>
+    have hc := h c (by simp)
+    have := ih fun ch hch => h ch (by simp [hch])
+    simp only [escapeDq, List.flatMap_cons] at this ⊢
+    rw [this]; simp [hc.2]
+
+theorem escapeDq_append (a b : Str) : escapeDq (a ++ b) = escapeDq a ++ escapeDq b := by
+  simp [escapeDq]
+
+theorem hexDigit_facts : ∀ d : Fin 16,
+    (String.utf8EncodeChar (hexDigit d.val)).map hexVal? = [some d.val] ∧
+    hexDigit d.val ≠ '\\' ∧ hexDigit d.val ≠ '"' := by decide
+
+theorem hexDigit_byte (d : Nat) (hd : d < 16) :
+    ∃ b, String.utf8EncodeChar (hexDigit d) = [b] ∧ hexVal? b = some d := by
+  have := (hexDigit_facts ⟨d, hd⟩).1
+  simp only at this
+  cases h : String.utf8EncodeChar (hexDigit d) with
+  | nil => simp [h] at this
+  | cons b t =>
+    cases t with
+    | nil => exact ⟨b, rfl, by simpa [h] using this⟩
+    | cons b' t' => simp [h] at this
+
+theorem plain_hexN (k m : Nat) : Plain (hexN k m) := by
+  induction k generalizing m with
+  | zero => intro ch h; simp [hexN] at h
+  | succ k ih =>
+    intro ch h
+    simp only [hexN, List.mem_append, List.mem_singleton] at h
+    rcases h with h | h
+    · exact ih _ ch h
+    · subst h
+      exact (hexDigit_facts ⟨m % 16, Nat.mod_lt _ (by decide)⟩).2
+
+/-- `k` hex digits consumed in mode `hex (j + k)` leave the decoder in mode `hex j` -/
+theorem uesc_hexRun (k : Nat) : ∀ (j v m : Nat) (kind : HexKind) (r : List UInt8), m < 16 ^ k →
+    uesc (.hex (j + k) v kind) (utf8 (hexN k m) ++ r) = uesc (.hex j (v * 16 ^ k + m) kind) r := by
+  induction k with
+  | zero => intro j v m kind r hm; simp at hm; subst hm; simp [hexN, utf8]
+  | succ k ih =>
+    intro j v m kind r hm
+    obtain ⟨b, hb1, hb2⟩ := hexDigit_byte (m % 16) (Nat.mod_lt _ (by decide))
+    have e1 : utf8 (hexN (k + 1) m) ++ r = utf8 (hexN k (m / 16)) ++ (b :: r) := by
+      simp [hexN, utf8, hb1]
+    have e2 : j + (k + 1) = (j + 1) + k := by omega
+    rw [e1, e2, ih (j + 1) v (m / 16) kind (b :: r) (by rw [Nat.pow_succ] at hm; omega)]
+    simp only [uesc, hb2]
+    have e3 : (v * 16 ^ k + m / 16) * 16 + m % 16 = v * 16 ^ (k + 1) + m := by
+      rw [Nat.pow_succ, ← Nat.mul_assoc]
+      have := Nat.div_add_mod m 16
+      generalize v * 16 ^ k = w
+      omega
+    rw [e3]
+
+/-- a complete `\\xHH` / `\\uHHHH` / `\\UHHHHHHHH` run: `K + 1` digits in mode `hex K` give the number back -/
+theorem uesc_hexFull (K n : Nat) (kind : HexKind) (r : List UInt8) (hn : n < 16 ^ (K + 1))
+    (hmax : n ≤ 0x10FFFF) :
+    uesc (.hex K 0 kind) (utf8 (hexN (K + 1) n) ++ r) = consR n (uesc .normal r) := by
+  obtain ⟨b, hb1, hb2⟩ := hexDigit_byte (n % 16) (Nat.mod_lt _ (by decide))
+  have e1 : utf8 (hexN (K + 1) n) ++ r = utf8 (hexN K (n / 16)) ++ (b :: r) := by
+    simp [hexN, utf8, hb1]
+  have h := uesc_hexRun K 0 0 (n / 16) kind (b :: r) (by rw [Nat.pow_succ] at hn; omega)
+  simp only [Nat.zero_add, Nat.zero_mul] at h
+  rw [e1, h]
+  have e3 : n / 16 * 16 + n % 16 = n := by have := Nat.div_add_mod n 16; omega
+  simp only [uesc, hb2, e3]
+  rw [if_neg (by omega)]
+
+theorem escapeDq_noDq {s : Str} (h : '"' ∉ s) : escapeDq s = s := by
+  induction s with
+  | nil => rfl
+  | cons c s ih =>
+    have hc : c ≠ '"' := fun e => h (by simp [e])
+    have := ih fun hm => h (by simp [hm])
+    simp only [escapeDq, List.flatMap_cons] at this ⊢
+    rw [this]; simp [hc]
+
+theorem noDq_hexN (k m : Nat) : '"' ∉ hexN k m := fun h => (plain_hexN k m _ h).2 rfl
+
+/-- one character of `dqrepr`'s body -/
+def dqChar (c : Char) : Str := escapeDq (uescEncodeChar c)
+
+theorem dqreprBody_cons (c : Char) (x : Str) : dqreprBody (c :: x) = dqChar c ++ dqreprBody x := by
+  simp [dqreprBody, dqChar, escapeDq_append]
+
+theorem ascii_utf8 (c : Char) (h : c.toNat < 128) : String.utf8EncodeChar c = [c.val.toUInt8] := by
+  apply String.utf8EncodeChar_eq_singleton
+  rw [Char.utf8Size_eq_one_iff, UInt32.le_iff_toNat_le]
+  show c.toNat ≤ 127
+  omega
+
+theorem uesc_bs_U (bs : List UInt8) : uesc .normal (0x5C :: 0x55 :: bs) = uesc (.hex 7 0 .bigU) bs := by
+  rw [uesc, if_pos rfl, uesc, if_neg (by decide)]
+  rfl
+theorem uesc_bs_u (bs : List UInt8) : uesc .normal (0x5C :: 0x75 :: bs) = uesc (.hex 3 0 .u) bs := by
+  rw [uesc, if_pos rfl, uesc, if_neg (by decide)]
+  rfl
+theorem uesc_bs_x (bs : List UInt8) : uesc .normal (0x5C :: 0x78 :: bs) = uesc (.hex 1 0 .x) bs := by
+  rw [uesc, if_pos rfl, uesc, if_neg (by decide)]
+  rfl
+theorem uesc_bs_simple (b : UInt8) (v : Nat) (bs : List UInt8) (h : simpleEsc b = some v) (hb : b ≠ 0x0A) :
+    uesc .normal (0x5C :: b :: bs) = consR v (uesc .normal bs) := by
+  rw [uesc, if_pos rfl, uesc, if_neg hb, h]
+theorem char_le_max (c : Char) : c.toNat ≤ 0x10FFFF := by
+  have := c.valid
+  simp only [UInt32.isValidChar, Nat.isValidChar] at this
+  show c.val.toNat ≤ _
+  omega
+
+theorem utf8_two (a b : Char) (x y : UInt8) (ha : String.utf8EncodeChar a = [x])
+    (hb : String.utf8EncodeChar b = [y]) (t : Str) (r : List UInt8) :
+    utf8 (a :: b :: t) ++ r = x :: y :: (utf8 t ++ r) := by
+  rw [utf8_cons, utf8_cons, ha, hb]; rfl
+
+/-- shape of `dqChar c`, its lexer-safety and its decoding -/
+theorem dqChar_spec (c : Char) :
+    Safe (dqChar c) ∧ ∀ r, uesc .normal (utf8 (dqChar c) ++ r) = consR c.toNat (uesc .normal r) := by
+  have hmax := char_le_max c
+  unfold dqChar uescEncodeChar
+  simp only
+  split
+  · -- \UHHHHHHHH
+    rw [escapeDq_noDq (s := '\\' :: 'U' :: hexN 8 c.toNat) (by simp [noDq_hexN])]
+    refine ⟨.esc 'U' _ (by simpa using safe_of_plain (plain_hexN 8 c.toNat) .nil), fun r => ?_⟩
+    rw [utf8_two _ _ _ _ utf8_backslash (show String.utf8EncodeChar 'U' = [0x55] by decide), uesc_bs_U]
+    exact uesc_hexFull 7 c.toNat .bigU r (by omega) hmax
+  · split
+    · -- \uHHHH
+      rw [escapeDq_noDq (s := '\\' :: 'u' :: hexN 4 c.toNat) (by simp [noDq_hexN])]
+      refine ⟨.esc 'u' _ (by simpa using safe_of_plain (plain_hexN 4 c.toNat) .nil), fun r => ?_⟩
+      rw [utf8_two _ _ _ _ utf8_backslash (show String.utf8EncodeChar 'u' = [0x75] by decide), uesc_bs_u]
+      exact uesc_hexFull 3 c.toNat .u r (by omega) hmax
+    · split
+      · rename_i h; subst h
+        exact ⟨.esc 't' _ .nil, fun r => uesc_bs_simple 0x74 9 r rfl (by decide)⟩
+      · split
+        · rename_i h; subst h
+          exact ⟨.esc 'n' _ .nil, fun r => uesc_bs_simple 0x6E 10 r rfl (by decide)⟩
+        · split
+          · rename_i h; subst h
+            exact ⟨.esc 'r' _ .nil, fun r => uesc_bs_simple 0x72 13 r rfl (by decide)⟩
+          · split
+            · rename_i h; subst h
+              exact ⟨.esc '\\' _ .nil, fun r => uesc_bs_simple 0x5C 0x5C r rfl (by decide)⟩
+            · split
+              · -- \xHH
+                rw [escapeDq_noDq (s := '\\' :: 'x' :: hexN 2 c.toNat) (by simp [noDq_hexN])]
+                refine ⟨.esc 'x' _ (by simpa using safe_of_plain (plain_hexN 2 c.toNat) .nil), fun r => ?_⟩
+                rw [utf8_two _ _ _ _ utf8_backslash (show String.utf8EncodeChar 'x' = [0x78] by decide), uesc_bs_x]
+                exact uesc_hexFull 1 c.toNat .x r (by omega) hmax
+              · -- literal printable ASCII
+                rename_i h1 h2 _ _ _ hbs h3
+                by_cases hq : c = '"'
+                · subst hq
+                  exact ⟨.esc '"' _ .nil, fun r => uesc_bs_simple 0x22 0x22 r rfl (by decide)⟩
+                · have e : escapeDq [c] = [c] := escapeDq_noDq (by simp; exact fun h => hq h.symm)
+                  rw [e]
+                  refine ⟨.plain c _ hbs hq .nil, fun r => ?_⟩
+                  have hlt : c.toNat < 128 := by omega
+                  have e2 : utf8 [c] = String.utf8EncodeChar c := by simp [utf8]
+                  rw [e2, uesc_normal_plain _ _ (no_backslash_byte c hbs), ascii_utf8 c hlt]
+                  simp only [List.map_cons, List.map_nil, prependR, List.foldr_cons, List.foldr_nil]
+                  congr 1
+                  show c.val.toUInt8.toNat = c.val.toNat
+                  rw [UInt32.toNat_toUInt8]
+                  have : c.val.toNat = c.toNat := rfl
+                  omega
+
+theorem safe_dqreprBody (x : Str) : Safe (dqreprBody x) := by
+  induction x with
+  | nil => exact .nil
+  | cons c x ih => rw [dqreprBody_cons]; exact (dqChar_spec c).1.append ih
+
+theorem uesc_dqreprBody (x : Str) (r : List UInt8) :
+    uesc .normal (utf8 (dqreprBody x) ++ r) = prependR (toCps x) (uesc .normal r) := by
+  induction x with
+  | nil => rfl
+  | cons c x ih =>
+    rw [dqreprBody_cons, utf8_append, List.append_assoc, (dqChar_spec c).2, ih]
+    rfl
+
+/-- what `_handleToken`'s latin-1 / utf-8 step makes of the decoded code points -/
+def reread (cps : List Nat) : List Nat :=
+  match latin1? cps with
+  | none => cps
+  | some bs =>
+    match utf8Decode? bs with
+    | none => cps
+    | some s => toCps s
+
+theorem decodeQuoted_dqreprBody (x : Str) : decodeQuoted (dqreprBody x) = .ok (reread (toCps x)) := by
+  have h := uesc_dqreprBody x []
+  simp only [List.append_nil, uesc, prependR_ok] at h
+  unfold decodeQuoted reread
+  rw [h]
+  simp only
+  cases latin1? (toCps x) with
+  | none => rfl
+  | some bs => simp only; cases utf8Decode? bs <;> rfl
+
+theorem goodWriter_dqreprBody (x : Str) : GoodWriter dqreprBody (fun x => reread (toCps x)) x :=
+  ⟨safe_dqreprBody x, decodeQuoted_dqreprBody x⟩
+
+/-! ### the class of arguments `dqrepr` does not protect -/
+
+/-- the code points read as bytes (meaningful when all are below 256) -/
+def asBytes (x : Str) : List UInt8 := x.map fun c => UInt8.ofNat c.toNat
+
+/-- all code points ≤ U+00FF, at least one non-ASCII, and the code points read as bytes are valid UTF-8 -/
+def InRereadClass (x : Str) : Prop :=
+  (∀ c ∈ x, c.toNat < 256) ∧ (∃ c ∈ x, 128 ≤ c.toNat) ∧ (utf8Decode? (asBytes x)).isSome
+
+theorem latin1?_toCps (x : Str) :
+    latin1? (toCps x) = if ∀ c ∈ x, c.toNat < 256 then some (asBytes x) else none := by
+  induction x with
+  | nil => simp [latin1?, toCps, asBytes]
+  | cons c x ih =>
+    simp only [toCps, List.map_cons, latin1?] at ih ⊢
+    by_cases hc : c.toNat < 256
+    · simp only [hc, if_true, ih]
+      by_cases hx : ∀ c ∈ x, c.toNat < 256
+      · simp [hc, asBytes]
+      · simp [hx]
+    · simp [hc]
+
+theorem asBytes_ascii (x : Str) (h : ∀ c ∈ x, c.toNat < 128) : asBytes x = utf8 x := by
+  induction x with
+  | nil => rfl
+  | cons c x ih =>
+    have hc := h c (by simp)
+    rw [utf8_cons, ascii_utf8 c hc, asBytes, List.map_cons, ← asBytes, ih fun d hd => h d (by simp [hd])]
+    simp only [List.cons_append, List.nil_append, List.cons.injEq, and_true]
+    apply UInt8.toNat_inj.1
+    rw [UInt32.toNat_toUInt8, UInt8.toNat_ofNat']
+    rfl
+
+theorem reread_of_not_class (x : Str) (h : ¬ InRereadClass x) : reread (toCps x) = toCps x := by
+  unfold reread
+  rw [latin1?_toCps]
+  by_cases hlt : ∀ c ∈ x, c.toNat < 256
+  · rw [if_pos hlt]
+    show (match utf8Decode? (asBytes x) with | none => toCps x | some s => toCps s) = toCps x
+    cases hd : utf8Decode? (asBytes x) with
+    | none => rfl
+    | some s =>
+      simp only
+      have hascii : ∀ c ∈ x, c.toNat < 128 := by
+        intro c hc
+        apply Nat.lt_of_not_le
+        intro hge
+        exact h ⟨hlt, ⟨c, hc, hge⟩, by simp [hd]⟩
+      rw [asBytes_ascii x hascii, utf8Decode?_utf8] at hd
+      cases hd; rfl
+  · rw [if_neg hlt]
+
+theorem utf8_of_decode {bs : List UInt8} {s : Str} (h : utf8Decode? bs = some s) : utf8 s = bs := by
+  unfold utf8Decode? at h
+  cases hd : bs.toByteArray.utf8Decode? with
+  | none => simp [hd] at h
+  | some arr =>
+    simp only [hd, Option.map_some, Option.some.injEq] at h
+    have hs : bs.toByteArray.utf8Decode?.isSome := by simp [hd]
+    have := ByteArray.utf8Encode_get_utf8Decode? (b := bs.toByteArray) (h := hs)
+    simp only [hd, Option.get_some, h] at this
+    exact List.toByteArray_inj.1 this
+
+theorem length_utf8_ge (x : Str) : x.length ≤ (utf8 x).length := by
+  induction x with
+  | nil => simp [utf8]
+  | cons c x ih =>
+    rw [utf8_cons, List.length_append, String.length_utf8EncodeChar]
+    have := c.utf8Size_pos
+    simp only [List.length_cons]; omega
+
+theorem length_utf8_gt (x : Str) (c : Char) (hc : c ∈ x) (hge : 128 ≤ c.toNat) :
+    x.length < (utf8 x).length := by
+  induction x with
+  | nil => simp at hc
+  | cons d x ih =>
+    rw [utf8_cons, List.length_append, String.length_utf8EncodeChar]
+    have hpos := d.utf8Size_pos
+    have hle := length_utf8_ge x
+    simp only [List.length_cons]
+    rcases List.mem_cons.1 hc with rfl | hc
+    · have : c.utf8Size ≠ 1 := by
+        rw [Ne, Char.utf8Size_eq_one_iff, UInt32.le_iff_toNat_le]
+        show ¬ c.toNat ≤ 127
+        omega
+      omega
+    · have := ih hc; omega
+
+theorem toCps_inj {s x : Str} (h : toCps s = toCps x) : s = x := by
+  induction s generalizing x with
+  | nil => cases x <;> simp_all [toCps]
+  | cons a s ih =>
+    cases x with
+    | nil => simp [toCps] at h
+    | cons b x =>
+      simp only [toCps, List.map_cons, List.cons.injEq] at h
+      rw [char_eq_of_toNat h.1, ih (x := x) h.2]
+
+/-- the class is exact: every member of it is re-read as different text -/
+theorem reread_of_class (x : Str) (h : InRereadClass x) : reread (toCps x) ≠ toCps x := by
+  obtain ⟨hlt, ⟨c, hc, hge⟩, hsome⟩ := h
+  unfold reread
+  rw [latin1?_toCps, if_pos hlt]
+  show (match utf8Decode? (asBytes x) with | none => toCps x | some s => toCps s) ≠ toCps x
+  cases hd : utf8Decode? (asBytes x) with
+  | none => simp [hd] at hsome
+  | some s =>
+    intro he
+    have := toCps_inj he
+    subst this
+    have h1 := utf8_of_decode hd
+    have h2 := length_utf8_gt s c hc hge
+    rw [h1] at h2
+    simp [asBytes] at h2
 end C13
